@@ -6,13 +6,13 @@
 EXTENDS Ranges, TraceIO
 VARIABLE l
 Ev == TraceLog[l]
-TInit == /\ l = 1 /\ adaptor = "enumerate" /\ cat = "const" /\ src = <<>> /\ write = FALSE /\ handoff = "direct" /\ pc = "start" /\ pos = 0
+TInit == /\ l = 1 /\ adaptor = "enumerate" /\ cat = "const" /\ src = <<>> /\ write = FALSE /\ handoff = "direct" /\ style = "pre" /\ pc = "start" /\ pos = 0
          /\ visited = <<>> /\ tempAlive = FALSE
-TReset == /\ Ev.e = "Reset" /\ l' = l + 1 /\ adaptor' = "enumerate" /\ cat' = "const" /\ src' = <<>> /\ write' = FALSE /\ handoff' = "direct"
+TReset == /\ Ev.e = "Reset" /\ l' = l + 1 /\ adaptor' = "enumerate" /\ cat' = "const" /\ src' = <<>> /\ write' = FALSE /\ handoff' = "direct" /\ style' = "pre"
           /\ pc' = "start" /\ pos' = 0 /\ visited' = <<>> /\ tempAlive' = FALSE
 TLoop == /\ Ev.e = "Loop" /\ Ev.outcome = "ok" /\ Ev.bad = 0 /\ Ev.leaked = 0
          /\ Len(Ev.after) = Ev.n
-         /\ adaptor' = Ev.adaptor /\ cat' = Ev.cat /\ src' = Ev.after /\ write' = Ev.write /\ handoff' = Ev.handoff
+         /\ adaptor' = Ev.adaptor /\ cat' = Ev.cat /\ src' = Ev.after /\ write' = Ev.write /\ handoff' = Ev.handoff /\ style' = Ev.style
          /\ visited' = Ev.visited /\ pc' = "done" /\ pos' = Ev.n + 1 /\ tempAlive' = FALSE
          /\ l' = l + 1
 TNext == l <= TraceLen /\ (TReset \/ TLoop)
